@@ -12,6 +12,20 @@ os.environ.setdefault("KAFE2_VERIF", "1")
 warnings.simplefilter("ignore")
 
 
+def _prune_scratch():
+    """empty per-process scratch directories left behind by earlier runs (build/ is not under version control)"""
+    build = os.path.join(os.path.dirname(os.path.dirname(os.path.abspath(__file__))), "build")
+    try:
+        for name in os.listdir(build):
+            if name.startswith("run-"):
+                try:
+                    os.rmdir(os.path.join(build, name))      # only succeeds when empty
+                except OSError:
+                    pass
+    except OSError:
+        pass
+
+
 def main(argv=None):
     ap = argparse.ArgumentParser()
     ap.add_argument("prop")
@@ -20,6 +34,7 @@ def main(argv=None):
     ap.add_argument("--seed", type=int, default=int(os.environ.get("VERIF_SEED", "0") or 0))
     args = ap.parse_args(argv)
     prop = args.prop.upper()
+    _prune_scratch()
     try:
         from .core import assert_repo_import
         assert_repo_import()
